@@ -147,6 +147,39 @@ def r03h(ctx):
     ctx.floor('R03h', 'module-tree worlds', n, 6)
 
 
+def r03i(ctx):
+    """'The SuperNet evaluated with hard selection' is a function of alpha: every forward of the
+    combiner re-samples its coefficients (self.sample_alpha()) before it weights the branch
+    outputs, on every path and under no condition -- otherwise the evaluated mix is whatever an
+    earlier call left behind while export takes the arg-max of the current alpha."""
+    repo = ctx.repo
+    comb = repo.cls('SuperNetCombiner')
+    fwd = comb.methods['forward']
+    n = 0
+    for p in returning(paths(repo, fwd)):
+        if any(e.kind == 'loop0' for e in p.events):
+            continue
+        n += 1
+        i_s = next((i for i, e in enumerate(p.events) if e.kind == 'call' and
+                    method_call(e.data[0]) and method_call(e.data[0])[0] == SELF and
+                    method_call(e.data[0])[1] == 'sample_alpha'), None)
+        cond = []
+        if i_s is not None:
+            cond = [(a, v) for a, v in prior_assumes(p, p.events[i_s])]
+        reads = mentions(p.retval, lambda y: y == ('attr', SELF, 'theta_alpha')) \
+            if p.retval is not None else False
+        ok = (i_s is not None and not cond) or not reads
+        ctx.ob('R03i', 'SuperNetCombiner.forward re-samples on every call', ok,
+               'sample_alpha() runs unconditionally before the outputs are weighted' if ok else
+               (f'the coefficients are re-sampled only when '
+                f'{[(short(a, 50), v) for a, v in cond][:2]}' if i_s is not None else
+                'a path weights the outputs without calling sample_alpha()') +
+               ': on the other calls forward uses the coefficients of an earlier sample (stale '
+               'after the coefficients, the temperature or the hard flag changed), so the '
+               'evaluated SuperNet is not the one export materialises', where(fwd))
+    ctx.floor('R03i', 'forward paths', n, 1)
+
+
 def exact_type_predicate(repo, fn) -> bool:
     """The predicate compares the concrete type (``type(x) in classes`` / ``==``) rather than
     testing isinstance / issubclass."""
@@ -180,6 +213,7 @@ def run(ctx):
     from .c11 import options_reach_every_layer
     options_reach_every_layer(ctx, 'R03f', only=('SuperNet',))
     r03h(ctx)
+    r03i(ctx)
     repo = ctx.repo
     eg = repo.fn('supernet.graph.export_graph')
     comb = repo.cls('SuperNetCombiner')
